@@ -384,8 +384,7 @@ Definition lbV (p : Z) : Prop := line_boundary attrs p = true /\ CBall st0 rs p.
 Definition SK (w : W) : Prop := sk (w_st w) = sk st0 /\ w_runs w = rs /\ b_attrs (w_br w) = attrs.
 
 Definition OverQ (w : W) (l : list out) : Prop := forall p, w_start w < p < lend (w_start w) l -> lbV p -> False.
-Definition T0c (w : W) (l : list out) : Prop :=
-  l = [] \/ (0 < lend (w_start w) l < n /\ exists run, In run (w_runs w) /\ o_off run = lend (w_start w) l).
+Definition T0c (w : W) (l : list out) : Prop := l = [].
 Definition EndC (w : W) (l : list out) : Prop := lend (w_start w) l = n /\ c_cont (w_cfg w) = false.
 Definition BCl (lc : line_cfg) (w : W) (l : list out) : Prop :=
   let m := ceil26 (lmeas (w_st w) (c_dir (w_cfg w)) l) in
@@ -408,24 +407,13 @@ Lemma BC_step : forall lc w w', BC lc w -> st_le (w_st w) (w_st w') -> s_best (w
   w_start w' = w_start w -> w_cfg w' = w_cfg w -> w_runs w' = w_runs w -> BC lc w'.
 Proof.
   intros lc w w' H L Eb Es Ec Er l Hl. rewrite Eb in Hl. specialize (H l Hl). unfold BCl, EndC, T0c, OverQ in *.
-  rewrite Es, Ec, Er. pose proof (ceil26_mono _ _ (lmeas_le _ _ (c_dir (w_cfg w)) l L)) as M.
+  rewrite Es, Ec. pose proof (ceil26_mono _ _ (lmeas_le _ _ (c_dir (w_cfg w)) l L)) as M.
   destruct H as [[H1 H2]|[H|H]]; [left|right; left; exact H|right; right; exact H].
   split; [lia|]. intros T. destruct (H2 T) as [H3|H3]; [left; lia|right; exact H3].
 Qed.
 Lemma BC_same : forall lc w w', BC lc w -> w_st w' = w_st w -> s_best (w_sc w') = s_best (w_sc w) ->
   w_start w' = w_start w -> w_cfg w' = w_cfg w -> w_runs w' = w_runs w -> BC lc w'.
 Proof. intros lc w w' H E. intros. eapply BC_step; eauto. rewrite E. apply st_le_refl. Qed.
-
-Lemma T0_from_inv : forall w, Inv n w -> 0 <= w_start w -> lend (w_start w) (s_alt (w_sc w)) < n -> T0c w (s_alt (w_sc w)).
-Proof.
-  intros w (HR & HP & _) Hs Hlt. destruct HP as (Hpos & pre & post & m & e & Hsplit & Hidx & Hpre & Hpost & Halt & He1 & He2).
-  unfold T0c. destruct (s_alt (w_sc w)) as [|a al] eqn:A; [left; reflexivity|right].
-  assert (e = m) by (apply He2; congruence). subst e. rewrite (lend_chain _ _ _ Halt) in *.
-  pose proof (chain_pos_lt _ _ _ Halt Hpos ltac:(congruence)).
-  split; [lia|]. destruct post as [|r0 post'].
-  - inversion Hpost. lia.
-  - exists r0. destruct (chain_cons_inv _ _ _ _ Hpost) as [Ho _]. split; [rewrite Hsplit; apply in_or_app; right; left; reflexivity|exact Ho].
-Qed.
 
 Lemma chain_snoc_end : forall l s c e, chain s (l ++ [c]) e -> e = out_end c.
 Proof.
@@ -547,12 +535,11 @@ Proof.
     apply BCfit; [discriminate|apply PW2; reflexivity|]. intros _. right. unfold EndC. rewrite (lend_chain _ _ _ C33).
     rewrite (chain_snoc_end _ _ _ _ C33). split; [lia|exact E2].
   - (* Truncated *)
-    inversion H; subst w' d. destruct (has_best w3); [split; [exact Bs3|exact BC3]|].
-    split; [unfold Base in *; rewrite Stm; destruct w3; exact Bs3|].
-    destruct (mark_best_proj w3 []) as (N1 & N2 & N3 & N4).
-    intros l Hl. rewrite N4, app_nil_r in Hl. injection Hl as <-. unfold BCl. right; left. split; [apply PK3; right; reflexivity|].
-    destruct (C3 ltac:(discriminate)) as (_ & C32 & C33). destruct (chain_app_lend _ _ _ _ C33 C32) as [CL _].
-    pose proof (T0_from_inv w3 (proj1 P3) Hs0 ltac:(lia)) as Q. unfold T0c in *. rewrite N3. destruct w3; exact Q.
+    inversion H; subst w' d. destruct (has_best w3) eqn:HB3; [split; [exact Bs3|exact BC3]|].
+    split; [unfold Base in *; destruct w3; exact Bs3|].
+    destruct (mark_best_proj (restore w3) []) as (N1 & N2 & N3 & N4).
+    intros l Hl. rewrite N4, app_nil_r, R1, F3v in Hl. injection Hl as <-. unfold BCl. right; left. split; [apply PK3; right; reflexivity|].
+    unfold T0c. apply (JT_no_best_alt n w HT). exact (has_best_false_best w w3 F3best HB3).
   - (* NewLineBeforeBreak *)
     inversion H; subst w' d. split; [unfold Base in *; destruct w3; exact Bs3|].
     eapply BC_same; [exact BC3| | | | |]; destruct w3; reflexivity.
@@ -705,22 +692,22 @@ Proof.
     apply BCfit; [discriminate|apply PW2; reflexivity|]. intros _. right. unfold EndC. rewrite (lend_chain _ _ _ C33).
     rewrite (chain_snoc_end _ _ _ _ C33). split; [lia|exact E2].
   - (* Truncated *)
-    set (wt := if has_best w3 then w3 else mark_best w3 []) in *.
+    set (wt := if has_best w3 then w3 else mark_best (restore w3) []) in *.
     assert (X' : JP n wt /\ w_br wt = b1 /\ s_save (w_sc wt) = s_alt (w_sc w) /\ w_start wt = w_start w /\ XI n wt
                  /\ SK wt /\ Base wt /\ WSv wt /\ BC lc wt /\ (has_best wt = false -> has_best w = false)).
     { unfold wt. destruct (has_best w3) eqn:HB3.
       - split; [exact P3|]. split; [exact F3b|]. split; [exact F3v|]. split; [exact F3s|]. split; [exact XC3|]. split; [exact HK3|].
         split; [exact Bs3|]. split; [exact WSv3|]. split; [exact BC3|]. intros Q. change (has_best w3 = false) in Q. congruence.
-      - destruct (JP_mark_best_nil n w3 P3 ltac:(rewrite F3v; rewrite F3s in *; exact LE3)) as [P4 _]. split; [exact P4|].
-        pose proof (XI_mark_best0 n w3 XC3 (proj1 P3)) as X4.
-        destruct (mark_best_proj w3 []) as (N1 & N2 & N3 & N4).
-        split; [rewrite N2; exact F3b|]. split; [destruct w3; exact F3v|]. split; [rewrite N3; exact F3s|]. split; [exact X4|].
-        split; [destruct HK3 as (K1 & K2 & K3); split; [destruct w3; exact K1|split; [destruct w3; exact K2|rewrite N2; exact K3]]|].
+      - destruct (JT_restore n w3 P3) as [P3r _].
+        destruct (JP_mark_best_nil n (restore w3) P3r ltac:(destruct w3; cbn; apply Z.le_refl)) as [P4 _]. split; [exact P4|].
+        pose proof (XI_mark_best0 n (restore w3) (XI_restore n w3 XC3) (proj1 P3r)) as X4.
+        destruct (mark_best_proj (restore w3) []) as (N1 & N2 & N3 & N4).
+        split; [rewrite N2, R2; exact F3b|]. split; [destruct w3; exact F3v|]. split; [rewrite N3, R3; exact F3s|]. split; [exact X4|].
+        split; [destruct HK3 as (K1 & K2 & K3); split; [destruct w3; exact K1|split; [destruct w3; exact K2|rewrite N2, R2; exact K3]]|].
         split; [unfold Base in *; destruct w3; exact Bs3|]. split; [unfold WSv in *; destruct w3; exact WSv3|].
         split.
-        + intros l Hl. rewrite N4, app_nil_r in Hl. injection Hl as <-. unfold BCl. right; left. split; [apply PK3; right; reflexivity|].
-          destruct (C3 ltac:(discriminate)) as (_ & C32 & C33). destruct (chain_app_lend _ _ _ _ C33 C32) as [CL _].
-          pose proof (T0_from_inv w3 (proj1 P3) Hs0 ltac:(lia)) as Q. unfold T0c in *. rewrite N3. destruct w3; exact Q.
+        + intros l Hl. rewrite N4, app_nil_r, R1, F3v in Hl. injection Hl as <-. unfold BCl. right; left. split; [apply PK3; right; reflexivity|].
+          unfold T0c. apply (JT_no_best_alt n w HT). exact (has_best_false_best w w3 F3best HB3).
         + intros _. exact (has_best_false_best w w3 F3best HB3). }
     destruct X' as (X'1 & X'2 & X'3 & X'4 & X'5 & X'6 & X'7 & X'8 & X'9 & X'10).
     destruct (policy_never wt).
@@ -851,16 +838,12 @@ Definition WI (attrs : list Z) (w : W) : Prop :=
   forall p, w_start w < p -> line_boundary attrs p = true -> CBall (w_st w) (w_runs w) p ->
     b_wpos (w_br w) < p \/ (b_wpos (w_br w) = p /\ b_isUnusedW (w_br w) = true).
 
-(* = Check/C03.v interior_run_boundary (the F8 pattern): e is the boundary between two input runs *)
-Definition run_boundary_inside (rs : list out) (n e : Z) : bool :=
-  (0 <? e) && (e <? n) && existsb (fun r => o_off r =? e) rs.
-
 Definition width_stmt (attrs : list Z) (n : Z) (w : W) (mw : Z) (w' : W) (wl : wrapped) (line : list out) : Prop :=
   let tsrc := o_src (c_truncator (w_cfg w)) in
   let m := ceil26 (line_measure (w_st w') tsrc (c_dir (w_cfg w)) line) in
   let s := w_start w in let e := wl_next wl in
   (has_truncator tsrc line = true ->
-     s = e \/ m <= mw - ceil26 (o_adv (c_truncator (w_cfg w))) \/ run_boundary_inside (w_runs w) n e = true)
+     s = e \/ m <= mw - ceil26 (o_adv (c_truncator (w_cfg w))))
   /\ (has_truncator tsrc line = false ->
      m <= mw \/ (forall p, s < p < e -> line_boundary attrs p = true -> CBall (w_st w) (w_runs w) p -> False)).
 
@@ -942,7 +925,7 @@ Proof.
     destruct BC2 as [[B1 _]|[[B1 B2]|[B1 B2]]].
     + left. lia.
     + exfalso. apply Hlc in B1. destruct B1 as [B1a B1b]. destruct (A2 B1a B1b) as [A2a _].
-      unfold T0c in B2. rewrite Os in B2. destruct B2 as [->|[B2 _]]; [unfold lend in A2a; cbn in A2a; lia|lia].
+      unfold T0c in B2. subst l. unfold lend in A2a; cbn in A2a; lia.
     + right. intros p Hp Hv1 Hv2. apply (B2 p); [rewrite Os; exact Hp|split; assumption].
   - (* the truncator was appended *)
     cbn [app] in A4. rewrite A1 in Hline. injection Hline as <-.
@@ -953,11 +936,8 @@ Proof.
     pose proof (Mle _ Gt) as M.
     assert (LT : lc_truncating lc = true) by (apply Hlc; split; assumption).
     destruct BC2 as [[B1 B2]|[[B1 B2]|[B1 B2]]].
-    + destruct (B2 LT) as [B3|[B3 B4]]; [right; left; lia|]. exfalso. rewrite Os in B3. destruct A2 as [A2|A2]; [lia|congruence].
-    + unfold T0c in B2. rewrite Os in B2. destruct B2 as [->|(B2 & rn & B3 & B4)]; [left; reflexivity|].
-      right; right. unfold run_boundary_inside. rewrite Or in B3.
-      apply andb_true_intro; split; [apply andb_true_intro; split; [apply Z.ltb_lt; lia|apply Z.ltb_lt; lia]|].
-      apply existsb_exists. exists rn. split; [exact B3|apply Z.eqb_eq; exact B4].
+    + destruct (B2 LT) as [B3|[B3 B4]]; [right; lia|]. exfalso. rewrite Os in B3. destruct A2 as [A2|A2]; [lia|congruence].
+    + unfold T0c in B2. subst l. left. reflexivity.
     + congruence.
 Qed.
 
@@ -1002,7 +982,7 @@ Proof. intros attrs w cfg runs p Hp _ _. left. cbn in *. lia. Qed.
 Definition width_bound_stmt (attrs : list Z) (n : Z) (runs : list out) (st st' : store) (tsrc pdir tadv : Z)
            (s e mw : Z) (line : list out) : Prop :=
   let m := ceil26 (line_measure st' tsrc pdir line) in
-  (has_truncator tsrc line = true -> s = e \/ m <= mw - ceil26 tadv \/ run_boundary_inside runs n e = true)
+  (has_truncator tsrc line = true -> s = e \/ m <= mw - ceil26 tadv)
   /\ (has_truncator tsrc line = false ->
         m <= mw \/ (forall p, s < p < e -> line_boundary attrs p = true -> cluster_boundary st runs p = true -> False)).
 
